@@ -12,7 +12,7 @@ package main
 //   exp      := ( L hex ) | ( S id path* ) | ( C id path* ) | ( A exp* )
 //             | ( M ( hexkey exp )* ) | ( T ( hexkey exp )* ) | ( X exp )
 //   ref      := ( S id path* ) | ( C id path* )
-//   top      := call | -
+//   top      := @ call | -
 //   flags    := letters from {m (map call), p (preflight), k (keep comment)} or -
 // Tokens are separated by single spaces; an empty identifier is written `-`.
 
@@ -191,6 +191,7 @@ func c19Encode(ast *syntax.Ast) string {
 		e.tok(")")
 	}
 	if ast.Call != nil {
+		e.tok("@")
 		e.call(ast.Call)
 	} else {
 		e.tok("-")
